@@ -23,7 +23,9 @@ from runner import HarnessError, hyp
 
 PID = "C11"
 LEVEL = "exploration"
-RULE = ("part A: protocol in {http1,http2,websocket,tcp,udp,dns} x intercepted hook x direction x <=3 events while "
+RULE = ("part A also: HTTP/1 and HTTP/2 with streamed request/response bodies, and (always, all 8 combinations) an "
+        "h2-client<->h2-server exchange whose streamed request/response carries trailers, intercepted at the hook "
+        "after the body. part A: protocol in {http1,http2,websocket,tcp,udp,dns} x intercepted hook x direction x <=3 events while "
         "held (same-connection data, other-direction/other-stream traffic, peer EOF) x action {resume, edit, kill, "
         "drop}; non-trivial = >=1 event delivered while the hook is pending; distinct by (protocol, hook, direction, "
         "events-while-held, action). part B: op sequences over intercept/resume/kill/wait on a real Flow; "
@@ -620,11 +622,21 @@ def run_http2(case, ctx):
     def hdrs(path):
         return [(":method", "POST"), (":scheme", "http"), (":authority", "example.com"), (":path", path), ("x-tag", "HDRORIG" if path == "/s1" else "HDR3")]
 
+    trailers = bool(case.get("trailers"))
+    req_trailers = trailers and stream == "req"  # trailers travel with the streamed message only
+
+    def send_body():
+        if req_trailers:
+            peer.send_data(1, b"ORIGREQ!", end_stream=False)
+            peer.send_headers(1, [("x-trail", "REQTRAILER")], end_stream=True)
+        else:
+            peer.send_data(1, b"ORIGREQ!", end_stream=True)
+
     flush()
     body_later = "same" in case["extras"] and hook == "requestheaders"
     peer.send_headers(1, hdrs("/s1"), end_stream=False)
     if not body_later:
-        peer.send_data(1, b"ORIGREQ!", end_stream=True)
+        send_body()
     flush()
 
     def server_for(tag):
@@ -635,6 +647,9 @@ def run_http2(case, ctx):
 
     if stream == "resp":
         resp1 = b"HTTP/1.1 200 OK\r\nX-Tag: RHDRORIG\r\nTransfer-Encoding: chunked\r\n\r\n9\r\nORIGRESP!\r\n" + H1_END
+        if trailers:  # (stream == "resp" here)
+            resp1 = (b"HTTP/1.1 200 OK\r\nX-Tag: RHDRORIG\r\nTransfer-Encoding: chunked\r\nTrailer: x-trail\r\n\r\n"
+                     b"9\r\nORIGRESP!\r\n0\r\nx-trail: RESPTRAILER\r\n\r\n")
     else:
         resp1 = b"HTTP/1.1 200 OK\r\nX-Tag: RHDRORIG\r\nContent-Length: 9\r\n\r\nORIGRESP!"
     if hook in RESP_HOOKS:
@@ -649,7 +664,7 @@ def run_http2(case, ctx):
     for ex in case["extras"]:
         if ex == "same":
             if body_later:
-                peer.send_data(1, b"ORIGREQ!", end_stream=True)
+                send_body()
                 flush()
                 body_later = False
         elif ex == "other":
@@ -691,7 +706,7 @@ def run_http2(case, ctx):
 
     def client_s1(start=0):
         sel = [e for e in evs[start:] if getattr(e, "stream_id", None) == 1]
-        hd = [dict(e.headers) for e in sel if isinstance(e, h2.events.ResponseReceived)]
+        hd = [dict(e.headers) for e in sel if isinstance(e, (h2.events.ResponseReceived, h2.events.TrailersReceived))]
         body = b"".join(e.data for e in sel if isinstance(e, h2.events.DataReceived))
         ended = any(isinstance(e, h2.events.StreamEnded) for e in sel)
         reset = any(isinstance(e, h2.events.StreamReset) for e in sel)
@@ -730,7 +745,7 @@ def run_http2(case, ctx):
     d.release_all()
     if body_later and pctx.client.state.value & 1 and d.crashed is None:
         try:
-            peer.send_data(1, b"ORIGREQ!", end_stream=True)
+            send_body()
             flush()
         except Exception:
             pass  # the proxy reset the stream (kill): a real client could not send either
@@ -771,6 +786,191 @@ def run_http2(case, ctx):
     if action == "kill" and other_done and not gone:
         # the other stream must be unaffected by the kill: no reset for stream 3
         if any(isinstance(e, h2.events.StreamReset) and e.stream_id == 3 for e in evs):
+            r.fail("kill-affected-other-stream", "")
+
+
+# =========================================================================================== HTTP/2 end to end with trailers
+def run_http2_trailers(case, ctx):
+    """h2 client peer <-> proxy <-> h2 server peer (both independent hyper-h2 endpoints).  The intercepted message is
+    streamed and carries trailers, so at the hook after the body (`request` / `response`) exactly the trailers and the
+    end of the stream are still outstanding.  HTTP/1 cannot carry trailers in mitmproxy, hence the h2 upstream."""
+    import h2.config
+    import h2.connection
+    import h2.events
+    import stream_harness as sh
+    from mitmproxy.proxy import events as pevents
+    from mitmproxy.proxy.layers import http as hl
+
+    direction = case["dir"]  # "req" | "resp"
+    hook = "request" if direction == "req" else "response"
+    action = "kill" if case["action"] in ("kill", "drop") else "resume"
+    r = R(ctx, "http2+trailers+stream-" + direction, hook, action)
+    pctx = sh.make_context(sh.cached_options())
+    pctx.client.alpn = b"h2"
+    lay = hl.HttpLayer(pctx, hl.HTTPMode.regular)
+    state = {"held": None}
+
+    def pol(cmd):
+        fl = getattr(cmd, "flow", None)
+        if fl is None or getattr(fl, "request", None) is None or fl.request.path != "/s1":
+            return None
+        if cmd.name == "requestheaders" and direction == "req":
+            fl.request.stream = True
+        if cmd.name == "responseheaders" and direction == "resp":
+            fl.response.stream = True
+        if cmd.name == hook and state["held"] is None:
+            state["held"] = cmd
+            return sh.HOLD
+        return None
+
+    def conn_policy(cmd):
+        cmd.connection.alpn = b"h2"
+        return None
+
+    d = sh.StreamDriver(pctx, lay, hook_policy=pol, conn_policy=conn_policy)
+    cpeer = h2.connection.H2Connection(h2.config.H2Configuration(client_side=True, header_encoding="utf-8"))
+    speer = h2.connection.H2Connection(h2.config.H2Configuration(client_side=False, header_encoding="utf-8"))
+    cev, sev = [], []
+    srv = {}
+
+    def to_client(data):
+        cev.extend(cpeer.receive_data(data))
+        back = cpeer.data_to_send()
+        if back and pctx.client.state.value & 1:
+            d.queue.append(pevents.DataReceived(pctx.client, back))
+
+    def to_server(data):
+        sev.extend(speer.receive_data(data))
+        back = speer.data_to_send()
+        if back and srv["c"].state.value & 1:
+            d.queue.append(pevents.DataReceived(srv["c"], back))
+
+    def on_open(conn):
+        srv["c"] = conn
+        d.on_send[conn] = to_server
+        speer.initiate_connection()
+        d.queue.append(pevents.DataReceived(conn, speer.data_to_send()))
+
+    d.on_open = on_open
+    d.on_send[pctx.client] = to_client
+    cpeer.initiate_connection()
+    d.start()
+
+    def cflush():
+        b = cpeer.data_to_send()
+        if b and pctx.client.state.value & 1:
+            d.recv(pctx.client, b)
+
+    def sflush():
+        b = speer.data_to_send()
+        if b and "c" in srv and srv["c"].state.value & 1:
+            d.recv(srv["c"], b)
+
+    def hdrs(path):
+        return [(":method", "POST"), (":scheme", "http"), (":authority", "example.com"), (":path", path)]
+
+    cflush()
+    cpeer.send_headers(1, hdrs("/s1"), end_stream=False)
+    cpeer.send_data(1, b"ORIGREQ!", end_stream=False)
+    if direction == "req":
+        cpeer.send_headers(1, [("x-trail", "REQTRAILER")], end_stream=True)
+    else:
+        cpeer.send_data(1, b"", end_stream=True)
+    cflush()
+
+    def up_sid():
+        ids = [e.stream_id for e in sev if isinstance(e, h2.events.RequestReceived) and dict(e.headers).get(":path") == "/s1"]
+        return ids[0] if ids else None
+
+    if direction == "resp":
+        sid = up_sid()
+        if sid is None or not any(isinstance(e, h2.events.StreamEnded) and e.stream_id == sid for e in sev):
+            raise HarnessError("h2 request did not reach the h2 server: %r %r" % (d.hook_names(), d.crashed))
+        speer.send_headers(sid, [(":status", "200")], end_stream=False)
+        speer.send_data(sid, b"ORIGRESP!", end_stream=False)
+        speer.send_headers(sid, [("x-trail", "RESPTRAILER")], end_stream=True)
+        sflush()
+    if d.crashed:
+        ctx.fail(sh.crash_bucket(d.crashed), repr(d.crashed))
+        return
+    if state["held"] is None:
+        raise HarnessError("h2 hook %s not issued: %r" % (hook, d.hook_names()))
+    other_done = None
+    if "other" in case["extras"]:
+        cpeer.send_headers(3, hdrs("/s3"), end_stream=False)
+        cpeer.send_data(3, b"REQ3BODY", end_stream=True)
+        cflush()
+        ids3 = [e.stream_id for e in sev if isinstance(e, h2.events.RequestReceived) and dict(e.headers).get(":path") == "/s3"]
+        if ids3:
+            speer.send_headers(ids3[0], [(":status", "200")], end_stream=False)
+            speer.send_data(ids3[0], b"RESP3", end_stream=True)
+            sflush()
+        got3 = [e for e in cev if getattr(e, "stream_id", None) == 3]
+        other_done = bool(ids3) and any(isinstance(e, h2.events.DataReceived) and e.data == b"RESP3" for e in got3) \
+            and any(isinstance(e, h2.events.StreamEnded) for e in got3)
+        if other_done:
+            ctx.cls("h2-other-stream-completed-while-held")
+        else:
+            r.fail("other-stream-blocked-while-intercepted", "")
+    if d.crashed:
+        ctx.fail(sh.crash_bucket(d.crashed), repr(d.crashed))
+        return
+
+    def dest_events(start=0):
+        if direction == "req":
+            sid = up_sid()
+            sel = [e for e in sev[start:] if getattr(e, "stream_id", None) == sid and sid is not None]
+        else:
+            sel = [e for e in cev[start:] if getattr(e, "stream_id", None) == 1]
+        return {
+            "body": b"".join(e.data for e in sel if isinstance(e, h2.events.DataReceived)),
+            "trailers": [dict(e.headers).get("x-trail") for e in sel if isinstance(e, h2.events.TrailersReceived)],
+            "ended": any(isinstance(e, h2.events.StreamEnded) for e in sel),
+            "reset": any(isinstance(e, h2.events.StreamReset) for e in sel),
+            "headers": sum(1 for e in sel if isinstance(e, (h2.events.RequestReceived, h2.events.ResponseReceived))),
+        }
+
+    now = dest_events()
+    if now["ended"] or now["trailers"]:
+        r.fail("forwarded-while-intercepted:streamed", "trailers/END_STREAM reached the destination while `%s` is pending: %r" % (hook, now))
+    snap = len(sev) if direction == "req" else len(cev)
+    flow = state["held"].flow
+    if action == "kill":
+        if not flow.killable:
+            raise HarnessError("flow with a pending hook is not killable")
+        flow.kill()
+    d.release(state["held"])
+    d.release_all()
+    if direction == "req" and action == "resume" and d.crashed is None:
+        sid = up_sid()
+        if sid is not None and any(isinstance(e, h2.events.StreamEnded) and e.stream_id == sid for e in sev):
+            speer.send_headers(sid, [(":status", "200")], end_stream=False)
+            speer.send_data(sid, b"ORIGRESP!", end_stream=True)
+            sflush()
+    d.release_all()
+    if d.crashed:
+        ctx.fail(sh.crash_bucket(d.crashed), repr(d.crashed))
+        return
+    tag = b"ORIGREQ!" if direction == "req" else b"ORIGRESP!"
+    trail = "REQTRAILER" if direction == "req" else "RESPTRAILER"
+    allv, after = dest_events(), dest_events(snap)
+    names = [n for n, h in d.hooks() if getattr(h, "flow", None) is flow]
+    if action == "resume":
+        if cnt(allv["body"], tag) != 1 or allv["trailers"] != [trail] or not allv["ended"]:
+            r.fail("not-forwarded-exactly-once", repr(allv))
+    else:
+        if after["body"] or after["trailers"] or after["headers"]:
+            r.fail("forwarded-after-kill:streamed", "after the kill the destination still received %r" % (after,))
+        elif allv["ended"]:
+            r.fail("killed-message-completed:streamed", repr(allv))
+        elif not allv["reset"]:
+            r.fail("killed-message-not-aborted:streamed", "no RST_STREAM reached the destination: %r" % (allv,))
+        if flow.error is None:
+            r.fail("killed-flow-without-error")
+        ne = names.count("error")
+        if ne > 1 or (ne != 1 and hook != "response"):
+            r.fail("killed-flow-error-hook-count", "error fired %d times: %r" % (ne, names))
+        if other_done and any(isinstance(e, h2.events.StreamReset) and e.stream_id == 3 for e in cev):
             r.fail("kill-affected-other-stream", "")
 
 
@@ -901,7 +1101,8 @@ def run_async_hold(case, ctx):
 
 
 # =========================================================================================== dispatch
-RUNNERS = {"tcp": run_stream, "udp": run_stream, "websocket": run_ws, "dns": run_dns, "http1": run_http1, "http2": run_http2}
+RUNNERS = {"tcp": run_stream, "udp": run_stream, "websocket": run_ws, "dns": run_dns, "http1": run_http1, "http2": run_http2,
+           "http2t": run_http2_trailers}
 
 
 def check_case(case, ctx):
@@ -918,13 +1119,13 @@ def check_case(case, ctx):
         run_async_hold(case, ctx)
         return
     proto = case["proto"]
-    key = (proto, case.get("hook"), case.get("side"), tuple(case["extras"]), case["action"], case.get("nth"), case.get("frag"),
-           case.get("stream"))
+    key = (proto, case.get("hook") or case.get("dir"), case.get("side"), tuple(case["extras"]), case["action"], case.get("nth"), case.get("frag"),
+           case.get("stream"), case.get("trailers"))
     if case["extras"]:
         ctx.nt(key, "%s:%s" % (proto, case["action"]))
     else:
         ctx.cls("no-event-while-held:%s" % proto)
-    ctx.cls("hook:%s:%s%s" % (proto, case.get("hook") or "message",
+    ctx.cls("hook:%s:%s%s" % (proto, case.get("hook") or case.get("dir") or "message",
                               "" if case.get("stream") in (None, "none") else ":stream-" + case["stream"]))
     RUNNERS[proto](case, ctx)
 
@@ -950,7 +1151,9 @@ def strategy(ctx):
     partb = st.fixed_dictionaries({"part": st.just("B"), "flow": st.sampled_from(["http", "tcp", "udp", "dns"]),
                                    "ops": st.lists(st.sampled_from(["i", "r", "k", "w", "w"]), min_size=2, max_size=8)})
     import sim_intercept
-    return weighted((3, stream), (3, ws), (3, dnsc), (4, h1), (4, h2c), (2, partb), (3, sim_intercept.strategy()))
+    h2t = st.fixed_dictionaries({"part": st.just("A"), "proto": st.just("http2t"), "dir": st.sampled_from(["req", "resp"]),
+                                 "extras": st.lists(st.sampled_from(["other"]), max_size=1), "action": st.sampled_from(["resume", "kill"])})
+    return weighted((3, stream), (3, ws), (3, dnsc), (4, h1), (3, h2c), (1, h2t), (2, partb), (3, sim_intercept.strategy()))
 
 
 def run(ctx):
@@ -963,6 +1166,14 @@ def run(ctx):
                 ctx.cur_case = case
                 ctx.ev()
                 check_case(case, ctx)
+        # the h2<->h2 streamed-message-with-trailers scenarios form a small finite space: always run all of them
+        for dr in ("req", "resp"):
+            for ex in ([], ["other"]):
+                for action in ("resume", "kill"):
+                    case = {"part": "A", "proto": "http2t", "dir": dr, "extras": ex, "action": action}
+                    ctx.cur_case = case
+                    ctx.ev()
+                    check_case(case, ctx)
         for spins in range(1, 6):
             ctx.cur_case = {"part": "Bhold", "spins": spins}
             ctx.ev()
